@@ -5,6 +5,6 @@ VDIR=$(cd "$(dirname "$0")/.." && pwd)
 while read -r patch ids; do
   [ -z "$patch" ] && continue
   echo "== $patch"
-  if git -C /repo apply --check "$patch" 2>/dev/null; then base=""; else base=1f1a358; fi
+  if git -C /repo apply --check "$patch" 2>/dev/null; then base=""; else base=${SWEEP_BASE:-1f1a358}; fi
   MUT_BASE=${base:-$(git -C /repo rev-parse HEAD)} MUT_WT=${MUT_WT:-/tmp/wt-sweep} MUT_OUT=/tmp/sweep-out $VDIR/bin/try_mutant.sh "$patch" quick $ids
 done < "$1"
